@@ -336,8 +336,9 @@ func ParseDeb822(b []byte) ([]Field, []string) {
 		lines = lines[:n-1]
 	}
 	for i, l := range lines {
-		if l == "" {
-			errs = append(errs, fmt.Sprintf("line %d: empty line inside the control paragraph", i+1))
+		if strings.Trim(l, " \t") == "" {
+			// deb822: a line that is empty or holds only blanks ends the paragraph
+			errs = append(errs, fmt.Sprintf("line %d: blank line inside the control paragraph (ends the stanza for a deb822 parser)", i+1))
 			continue
 		}
 		if l[0] == ' ' || l[0] == '\t' {
